@@ -22,6 +22,17 @@ for f in sorted(glob.glob(os.path.join(V, "seeded", "*", "meta.json"))):
     if os.path.exists(np_):
         lines = [ln.strip("# -\n ") for ln in open(np_) if ln.strip()]
         notes = lines[0][:110] if lines else ""
+    tl = os.path.join(os.path.dirname(f), "tests_patched.log")
+    tests = str(m["confirmed"]["tests_exit_patched"])
+    if os.path.exists(tl):
+        txt = open(tl).read()
+        last = [ln for ln in txt.splitlines() if " passed" in ln][-1:] or [""]
+        fails = [ln for ln in txt.splitlines() if ln.startswith("FAILED")]
+        if fails and all("test_utils.py::TestPaths::test_" in ln and "permission" in ln for ln in fails):
+            tests = "pass (whole suite: " + last[0].strip("= ").split(" in ")[0] + "; the 2 baseline permission failures)"
+        elif not fails and " passed" in last[0]:
+            tests = "pass (" + last[0].strip("= ").split(" in ")[0] + ")"
+    m["confirmed"]["tests_exit_patched"] = tests
     ob = m["check"].get("violated_obligations") or []
     first = ob[0] if ob else ""
     kind = "B" if first.startswith("bounded:") else ("D" if first else "-")
@@ -34,7 +45,7 @@ for f in sorted(glob.glob(os.path.join(V, "seeded", "*", "meta.json"))):
     first = re.sub(r"\s+no-failing-input-found$", "", first)
     first = first.replace("|", "/")
     rows.append(f"| {d} | {notes.replace('|', '/')} | {m['confirmed']['tests_exit_patched']} | {m['check']['exit']} | {kind} | `{first[:120]}` |")
-table = "| change | what it does | tests (exit) | check exit | by | first obligation named |\n|---|---|---|---|---|---|\n" + "\n".join(rows)
+table = "| change | what it does | existing tests with the change | check exit | by | first obligation named |\n|---|---|---|---|---|---|\n" + "\n".join(rows)
 p = os.path.join(V, "DESIGN.md")
 s = open(p).read()
 start, end = "<!-- seedtable:start -->", "<!-- seedtable:end -->"
